@@ -46,8 +46,9 @@ type Req struct {
 	M      int        `json:"m"`
 	Names  []string   `json:"names"` // selected names; nil = all
 	Dag    [][]string `json:"dag"`
-	Keys   []string   `json:"keys"` // injected keys besides "req"
-	Fail   string     `json:"fail"` // "" | "boom" (panicking function) | "cond" (non-boolean condition)
+	Keys   []string   `json:"keys"`  // injected keys besides "req"
+	Fail   string     `json:"fail"`  // "" | "boom" (panicking function) | "cond" (non-boolean condition)
+	NoRet  bool       `json:"noret"` // isolation sessions: no rule of this request returns a value
 	// Trigger: this request performs the update from inside rule TrigRule
 	Trigger  *Update `json:"trigger"`
 	TrigRule string  `json:"trigrule"`
@@ -77,6 +78,13 @@ type Session struct {
 
 type Obj struct{ Id int64 }
 
+// a result map handed back to a caller, with a copy taken at that moment
+type keptMap struct {
+	q    int64
+	live map[string]interface{}
+	copy map[string]interface{}
+}
+
 func salOf(tag int64) int64 { return (tag/10)%10 - 3 } // tag = version*100 + salience code*10 + rule index
 
 func goid() int64 {
@@ -95,6 +103,7 @@ type drv struct {
 	reqs    map[int64]*Req
 	pool    *engine.GenginePool
 	sess    *Session
+	kept    []keptMap
 	trigMu  sync.Mutex
 	trigged map[int64]bool
 	gatePub bool
@@ -119,19 +128,19 @@ begin
   enter(req.Id, "own", 1)
   if failq(req.Id) { boom() }
   if condq(req.Id) { if notbool() { x = 1 } }
-  return req.Id
+  if retq(req.Id) { return req.Id }
 end
 rule "pa" "tag-2" salience 3 begin
   peek(req.Id, "ka", ka.Id)
-  return req.Id
+  if retq(req.Id) { return req.Id }
 end
 rule "pb" "tag-3" salience 2 begin
   peek(req.Id, "kb", kb.Id)
-  return req.Id
+  if retq(req.Id) { return req.Id }
 end
 rule "pc" "tag-4" salience 1 begin
   peek(req.Id, "kc", kc.Id)
-  return req.Id
+  if retq(req.Id) { return req.Id }
 end
 `
 }
@@ -164,7 +173,12 @@ func (d *drv) api() map[string]interface{} {
 			return d.reqs[q] != nil && d.reqs[q].Fail == "cond"
 		},
 		"notbool": func() int64 { return 1 },
-		"boom":    func() { panic("boom") },
+		"retq": func(q int64) bool {
+			d.mu.Lock()
+			defer d.mu.Unlock()
+			return d.reqs[q] == nil || !d.reqs[q].NoRet
+		},
+		"boom": func() { panic("boom") },
 		"peek": func(q int64, key string, val int64) {
 			d.o.Emit(obs.Event{"ev": "peek", "q": q, "key": key, "val": val})
 		},
@@ -302,6 +316,13 @@ func (d *drv) request(r *Req, cv bool) {
 			err, res = dispatch.PoolCall(d.pool, c, st, data)
 		}
 	}()
+	cp := map[string]interface{}{}
+	for k, v := range res {
+		cp[k] = v
+	}
+	d.mu.Lock()
+	d.kept = append(d.kept, keptMap{r.Q, res, cp})
+	d.mu.Unlock()
 	vals := []int64{}
 	for _, v := range res {
 		if x, ok := v.(int64); ok {
@@ -397,6 +418,20 @@ func (d *drv) quiesce() {
 		last = n
 	}
 	d.o.Emit(obs.Event{"ev": "quiesce"})
+	// every result map handed back so far must still be what it was when it was returned
+	d.mu.Lock()
+	kept := d.kept
+	d.kept = nil
+	d.mu.Unlock()
+	for _, k := range kept {
+		same := len(k.live) == len(k.copy)
+		for kk, v := range k.copy {
+			if lv, ok := k.live[kk]; !ok || lv != v {
+				same = false
+			}
+		}
+		d.o.Emit(obs.Event{"ev": "frozen", "q": k.q, "same": same})
+	}
 }
 
 func runSession(s *Session, quiet time.Duration, seed int64) ([]obs.Event, bool) {
